@@ -33,7 +33,6 @@ PRODUCERS = {
     "Int::from_str": "range-checked against -2^64 and 2^64 - 1 (re-checked by INT-span)",
     "BigInt::as_int": "range-checked against -2^64 and 2^64 - 1 (re-checked by INT-span)",
     "<Int as serialization::traits::Deserialize>::deserialize::{closure#0}": "CBOR uint (u64) or nint via read_nint (>= -2^64)",
-    "<CostModel as std::convert::From<Vec<i128>>>::from::{closure#0}": "crate-internal conversion used with the built-in cost model constants",
     "MintBuilder::update_mint_value": "copies an existing Int or stores checked_mint_sum(..)?, which range-checks",
 }
 
